@@ -15,7 +15,7 @@ import (
 // c07Truth is the property's table for the kind pool.
 func c07Truth(kind string) bool {
 	switch kind {
-	case "nil", "bool_f", "str_empty", "html_empty", "nilp":
+	case "nil", "bool_f", "str_empty", "html_empty", "nilp", "ptime_nil", "stringer_nilptr":
 		return false
 	}
 	// named_string holds "ns": truthy like everything else
@@ -42,11 +42,38 @@ var c07Forms = []struct {
 	{"if-in-fn", "<% let f = fn(x) { if (x) { return \"T\" } return \"F\" } %><%= f(V) %>", "T", "F"},
 }
 
+// c07Hold reaches values through typed struct fields.
+type c07Hold struct {
+	NilSlice   []string
+	NilMap     map[string]int
+	NilPtr     *T
+	NilFn      func()
+	NilIface   interface{}
+	EmptyStr   string
+	ZeroInt    int
+	EmptySlice []int
+	HTMLEmpty  template.HTML
+	Str        string
+	Inner      *c07Hold
+}
+
+var c07HoldTruth = map[string]bool{"NilSlice": true, "NilMap": true, "NilPtr": false, "NilFn": true, "NilIface": false, "EmptyStr": false, "ZeroInt": true, "EmptySlice": true, "HTMLEmpty": false, "Str": true}
+
 type c07Env struct{ trace []string }
 
 func c07Ctx(env *c07Env) *plush.Context {
 	ctx := kindCtx()
 	ctx.Set("nilvar", nil)
+	km := map[string]interface{}{}
+	var kl []interface{}
+	for _, k := range Kinds {
+		km[k.Name] = k.Make()
+		kl = append(kl, k.Make())
+	}
+	ctx.Set("km", km)
+	ctx.Set("kl", kl)
+	ctx.Set("hold", c07Hold{Str: "s", EmptySlice: []int{}, Inner: &c07Hold{Str: "s", EmptySlice: []int{}}})
+	ctx.Set("phold", &c07Hold{Str: "s", EmptySlice: []int{}})
 	ctx.Set("val", func(id string, v interface{}) interface{} {
 		env.trace = append(env.trace, id)
 		return v
@@ -71,8 +98,15 @@ func c07Run(b *core.B) {
 		truth bool
 	}
 	vals := []kv{{"nope_unknown", false}, {"nilvar", false}}
-	for _, k := range Kinds {
+	for i, k := range Kinds {
 		vals = append(vals, kv{"v_" + k.Name, c07Truth(k.Name)})
+		// the same value reached as a map element and as a slice element
+		vals = append(vals, kv{fmt.Sprintf("km[\"%s\"]", k.Name), c07Truth(k.Name)})
+		vals = append(vals, kv{fmt.Sprintf("kl[%d]", i), c07Truth(k.Name)})
+	}
+	// ... and through struct fields (value, pointer, nested pointer)
+	for f, truth := range c07HoldTruth {
+		vals = append(vals, kv{"hold." + f, truth}, kv{"phold." + f, truth}, kv{"hold.Inner." + f, truth})
 	}
 	for _, v := range vals {
 		for _, f := range c07Forms {
@@ -80,6 +114,10 @@ func c07Run(b *core.B) {
 				continue
 			}
 			if f.name == "if-in-fn" && (v.expr == "v_nil" || v.expr == "nilvar" || v.expr == "nope_unknown") {
+				continue
+			}
+			if strings.Contains(v.expr, "[") && strings.Contains(f.tmpl, "V && V") {
+				// keep the matrix small: the doubled form only for plain variables
 				// as a call argument an unset / nil-valued name is an unknown
 				// identifier error, which the property does not tolerate there
 				continue
